@@ -16,6 +16,8 @@ Inductive lpc :=
 | L0                      (* before the initial stores of run()/block_on() *)
 | L1                      (* before the stop-flag load *)
 | L2                      (* block_on only: before the future_ready swap *)
+| L2a                     (* inside the future's poll, which wakes itself: before the waker's store *)
+| L2b                     (* ... before the waker's notify *)
 | L3                      (* before the wait *)
 | LWaiting                (* blocked in the wait *)
 | LDone (ok_some : bool). (* returned: run -> Ok(()); block_on -> Some(out) when true, None when false *)
@@ -26,7 +28,7 @@ Record rst := mkR {
   blockon : bool;           (* false: run(None, ..); true: block_on *)
   stopf : bool; readyf : bool; notif : bool;
   pc : lpc;
-  fut : list bool;          (* block_on: outcome of each poll of the future: true = Ready *)
+  fut : list N;             (* block_on: outcome of each poll of the future: 0 Pending, 1 Ready, 2 Pending after waking itself *)
   rthr : list rthread;
   (* ghosts *)
   stop_req : bool;          (* stop() was called since the initial reset *)
@@ -55,10 +57,13 @@ Definition loop_step (s : rst) : rst :=
   | L2 =>
       if readyf s then
         match fut s with
-        | true :: r =>
+        | 1 :: r =>
             mkR (blockon s) (stopf s) false (notif s) (LDone true) r (rthr s) (stop_req s) (iters_after_stop s) (polls s + 1) (wakes s)
                 (r_log s [RReturned true; RPolled; RStep 0 YR_SWAP])
-        | false :: r =>
+        | 2 :: r =>
+            mkR (blockon s) (stopf s) false (notif s) L2a r (rthr s) (stop_req s) (iters_after_stop s) (polls s + 1) (wakes s)
+                (r_log s [RPolled; RStep 0 YR_SWAP])
+        | _ :: r =>
             mkR (blockon s) (stopf s) false (notif s) L3 r (rthr s) (stop_req s) (iters_after_stop s) (polls s + 1) (wakes s)
                 (r_log s [RPolled; RStep 0 YR_SWAP])
         | [] =>
@@ -68,6 +73,12 @@ Definition loop_step (s : rst) : rst :=
       else
         mkR (blockon s) (stopf s) false (notif s) L3 (fut s) (rthr s) (stop_req s) (iters_after_stop s) (polls s) (wakes s)
             (r_log s [RStep 0 YR_SWAP])
+  | L2a =>
+      mkR (blockon s) (stopf s) true (notif s) L2b (fut s) (rthr s) (stop_req s) (iters_after_stop s) (polls s) (wakes s + 1)
+          (r_log s [RStep 0 YR_WSTORE])
+  | L2b =>
+      mkR (blockon s) (stopf s) (readyf s) true L3 (fut s) (rthr s) (stop_req s) (iters_after_stop s) (polls s) (wakes s)
+          (r_log s [RStep 0 YR_WNOTIFY])
   | L3 =>
       if notif s then after_wait s (r_log s [RStep 0 YR_WAIT])
       else mkR (blockon s) (stopf s) (readyf s) (notif s) LWaiting (fut s) (rthr s) (stop_req s) (iters_after_stop s) (polls s) (wakes s)
@@ -120,7 +131,7 @@ Definition r_step (s : rst) (k : nat) : rst :=
            end
   end.
 
-Definition r_init (bo : bool) (futscript : list bool) (progs : list (list rop)) : rst :=
+Definition r_init (bo : bool) (futscript : list N) (progs : list (list rop)) : rst :=
   mkR bo false false false L0 futscript (map (fun p => mkRT p RIdle) progs) false 0 0 0 [].
-Definition r_run (bo : bool) (futscript : list bool) (progs : list (list rop)) (sched : list nat) : rst :=
+Definition r_run (bo : bool) (futscript : list N) (progs : list (list rop)) (sched : list nat) : rst :=
   fold_left r_step sched (r_init bo futscript progs).
